@@ -1,6 +1,7 @@
 package rules
 
 import (
+	"go/constant"
 	"fmt"
 	"go/token"
 	"go/types"
@@ -345,6 +346,161 @@ func RuleKPartChain(c *core.Ctx) {
 	ob("cover: periods are produced until the window's start or until `last` of them exist", coverOK,
 		"exits: end.Before(period.Start); counter >= last && last > 0 with counter = 0, +1 per period",
 		why3+": the partition stops early or runs past the window", l.alloc.Pos())
+	// (limit) `last` > 0 keeps exactly that many periods: the loop is executed
+	// abstractly with the window unbounded (the "end before window start" test
+	// is never true), `last` concrete and the number of appended periods counted;
+	// every integer in the loop is then concrete (counter, len of the list).
+	if coverOK {
+		simulate := func(lastV int64) (int64, bool, string) {
+			vals := map[ssa.Value]int64{}
+			var n int64
+			get := func(v ssa.Value) (int64, bool) {
+				v = core.Strip(v)
+				if cst, ok := v.(*ssa.Const); ok && cst.Value != nil && cst.Value.Kind() == constant.Int {
+					return constant.Int64Val(cst.Value)
+				}
+				if v == ssa.Value(last) {
+					return lastV, true
+				}
+				x, ok := vals[v]
+				return x, ok
+			}
+			var evalCond func(v ssa.Value) (bool, bool)
+			evalCond = func(v ssa.Value) (bool, bool) {
+				switch x := v.(type) {
+				case *ssa.UnOp:
+					if x.Op == token.NOT {
+						r, ok := evalCond(x.X)
+						return !r, ok
+					}
+				case *ssa.Call:
+					if call := isTimeMethod(x, "Before"); call != nil && call.Call.Args[0] == l.end && loadOfParamField(call.Call.Args[1], window, "Start") {
+						return false, true
+					}
+				case *ssa.BinOp:
+					a, ok1 := get(x.X)
+					b, ok2 := get(x.Y)
+					if ok1 && ok2 {
+						switch x.Op {
+						case token.EQL:
+							return a == b, true
+						case token.NEQ:
+							return a != b, true
+						case token.LSS:
+							return a < b, true
+						case token.LEQ:
+							return a <= b, true
+						case token.GTR:
+							return a > b, true
+						case token.GEQ:
+							return a >= b, true
+						}
+					}
+				}
+				return false, false
+			}
+			var pred *ssa.BasicBlock
+			for _, pb := range l.header.Preds {
+				if !l.body[pb] {
+					pred = pb
+				}
+			}
+			b := l.header
+			for steps := 0; steps < 2000; steps++ {
+				if b != l.header && !l.body[b] {
+					return n, true, ""
+				}
+				if b == l.alloc.Block() {
+					n++
+					if n > 40 {
+						return n, false, ""
+					}
+				}
+				for _, ins := range b.Instrs {
+					switch x := ins.(type) {
+					case *ssa.Phi:
+						for i, pb := range b.Preds {
+							if pb == pred {
+								if e, ok := get(x.Edges[i]); ok {
+									vals[x] = e
+								} else {
+									delete(vals, x)
+								}
+							}
+						}
+					case *ssa.BinOp:
+						a, ok1 := get(x.X)
+						bb, ok2 := get(x.Y)
+						if ok1 && ok2 {
+							switch x.Op {
+							case token.ADD:
+								vals[x] = a + bb
+							case token.SUB:
+								vals[x] = a - bb
+							case token.MUL:
+								vals[x] = a * bb
+							}
+						}
+					case *ssa.Call:
+						if bi, ok := x.Call.Value.(*ssa.Builtin); ok && bi.Name() == "len" {
+							if sl, ok := x.Call.Args[0].Type().Underlying().(*types.Slice); ok && isNamed(sl.Elem(), periodT) {
+								// the list of periods: before the append of this iteration if read in the header
+								vals[x] = n
+							}
+						}
+					}
+				}
+				switch t := b.Instrs[len(b.Instrs)-1].(type) {
+				case *ssa.If:
+					cv, ok := evalCond(t.Cond)
+					if !ok {
+						// a test on dates (the clipping of the first period): both branches stay in the body
+						if l.body[t.Block().Succs[1]] {
+							cv = false
+						} else {
+							cv = true
+						}
+					}
+					pred = b
+					if cv {
+						b = b.Succs[0]
+					} else {
+						b = b.Succs[1]
+					}
+				case *ssa.Jump:
+					pred, b = b, b.Succs[0]
+				default:
+					return n, true, ""
+				}
+			}
+			return n, false, "the loop does not settle within 2000 steps"
+		}
+		limitOK, why4 := true, ""
+		for _, lv := range []int64{1, 2, 3, 4, 5, 6} {
+			n, exited, w := simulate(lv)
+			if w != "" {
+				limitOK, why4 = false, w
+			} else if !exited || n != lv {
+				limitOK = false
+				if exited {
+					why4 = fmt.Sprintf("with last = %d and a window long enough the loop produces %d periods", lv, n)
+				} else {
+					why4 = fmt.Sprintf("with last = %d the loop is not left after %d periods", lv, n)
+				}
+				break
+			}
+		}
+		if limitOK {
+			for _, lv := range []int64{0, -1} {
+				if n, exited, _ := simulate(lv); exited {
+					limitOK, why4 = false, fmt.Sprintf("with last = %d (no limit) the loop is left after %d periods although the window is not exhausted", lv, n)
+				}
+			}
+		}
+		ob("limit: a positive `last` keeps exactly that many periods, zero or less keeps all", limitOK,
+			"the loop executed with the window unbounded and last = 1..6 appends exactly `last` periods; with last = 0, -1 it is not left",
+			why4+": --last n shows a different number of periods than n", l.alloc.Pos())
+	}
 	// (order) reversal before the periods are stored
 	periodsF := p.Field(pkgDate, "Partition", "periods")
 	revOK := false
